@@ -468,6 +468,10 @@ def is_late(line):
 def oracle_c01(r, F):
     """every SUB/USB answered exactly once; status as the property says (at quiescence)"""
     out = []
+    if r.status == 'deadlock':
+        who = sorted(set(e[1] for e in r.events if e[0] == 'blocked-in-real-primitive'))
+        return [('thread(s) %s of the library blocked for good in a synchronisation primitive although every other thread is at rest: '
+                 'the requests still queued are never answered' % (who,), {'kind': 'deadlock'})]
     if r.status != 'quiescent' or r.pending_chunks:
         return out
     for rid, meth, item in F.reqs:
@@ -503,6 +507,15 @@ def oracle_c01(r, F):
             if meth == 'USB':
                 if not ok_line:
                     out.append(('request %s: unsubscription with nothing to undo answered %r' % (rid, line), {'kind': 'reply_status', 'method': meth}))
+                else:
+                    # success without the adapter call is right only when there was nothing to undo
+                    prev = [q for q in F.reqs if q[2] == item and q[1] == 'SUB' and F.reqs.index(q) < F.reqs.index((rid, meth, item))]
+                    if prev:
+                        pc = [c for c in F.calls_of.get(prev[-1][0], []) if c.name == 'subscribe']
+                        if pc and pc[0].e is not None and not isinstance(pc[0].outcome, tuple):
+                            out.append(('request %s: answered with success without calling unsubscribe although the subscription %s before it '
+                                        'was made and returned normally (there was something to undo)' % (rid, prev[-1][0]),
+                                        {'kind': 'unsubscribe_not_invoked', 'method': meth}))
             else:
                 if ok_line:
                     out.append(('request %s: skipped subscription answered with success %r' % (rid, line), {'kind': 'reply_status', 'method': meth}))
@@ -541,6 +554,28 @@ def oracle_c02(r, F):
                 if c.name != want:
                     out.append(('item %s: %s invoked on behalf of %s request %s' % (item, c.name, F.meth_of[rid], rid), {'kind': 'order'}))
             prev = c
+    # an unsubscription following a failed or skipped subscription is acknowledged (without calling the adapter)
+    if r.status == 'quiescent' and not r.pending_chunks:
+        for k, (rid, meth, item) in enumerate(F.reqs):
+            if meth != 'USB':
+                continue
+            prev = [q for q in F.reqs[:k] if q[2] == item]
+            if not prev or prev[-1][1] != 'SUB':
+                continue
+            prid = prev[-1][0]
+            preps = F.replies.get(prid, [])
+            pcalls = [c for c in F.calls_of.get(prid, []) if c.name in ('subscribe', 'issnapshot_available')]
+            failed = any(isinstance(c.outcome, tuple) for c in pcalls)
+            skipped = any(is_late(l) for _, _, l in preps)
+            if not (failed or skipped):
+                continue
+            reps = F.replies.get(rid, [])
+            if not reps:
+                out.append(('item %s: unsubscription %s follows the %s subscription %s and was never acknowledged' % (
+                    item, rid, 'failed' if failed else 'skipped', prid), {'kind': 'unsubscribe_not_acknowledged'}))
+            elif not any(l.split('|')[1:3] == ['USB', 'V'] for _, _, l in reps):
+                out.append(('item %s: unsubscription %s follows the %s subscription %s and was answered %r' % (
+                    item, rid, 'failed' if failed else 'skipped', prid, reps[0][2][:80]), {'kind': 'unsubscribe_not_acknowledged'}))
     # skipped only if a later request had already arrived; latest SUB always executed
     last_req = {}
     for rid, meth, item in F.reqs:
@@ -815,6 +850,13 @@ def oracle_c16(r, F):
         if rest is None or not nxt.startswith(rest):
             out.append(('after a failed write the wire holds %r after the complete lines: not a fragment of the line being written'
                         % ((rest if rest is not None else wire_b)[:60],), {'kind': 'torn_line'}))
+    # the peer being slow is not a failure of the connection: a write that gives up on a timeout put on the shared socket
+    # object leaves a fragment of its line on the wire and strands everything queued behind it
+    nto = sum(1 for e in r.events[:r.n_events] if e[0] == 'send-timeout')
+    if nto:
+        out.append(('%d write(s) on the healthy connection gave up with socket.timeout after part of the line had gone out '
+                    '(a timeout is set on the socket object the writer shares): torn line, the lines queued behind it are never written' % nto,
+                    {'kind': 'write_timeout'}))
     # per-thread order
     by_thread = collections.defaultdict(list)
     for step, th, m in puts:
